@@ -34,6 +34,17 @@ CHECKS = {
         technique="TLA+ spec (DualAveraging) with IEEE operator override + TLC + trace validation of direct calls and wrapped real kernels",
         ref="DESIGN.md section 5, C11",
     ),
+    "C12": dict(
+        text="Alignment is a TLA+ theorem about index arithmetic (flat coordinate order = sorted keys, row-major): TLC "
+             "checks it for every listing of <=3 keys and sizes, and shows the listing-order tuner violates it. The "
+             "code is bound by trace validation: tune() of real HMC/NUTS kernels for all key orders (incl. "
+             "non-alphabetical), shapes, diag/dense, foreign keys in the history, and real engine runs with two "
+             "mass-matrix kernels; TLC recomputes the regularised (co)variance of each flat coordinate's history with "
+             "IEEE arithmetic and compares entry by entry; the flat order is observed from the real kernel.",
+        note="float32 variance vs double spec (rtol 2e-3). " + TRUST,
+        technique="TLA+ spec (MassMatrix) + TLC over all key listings + trace validation of real tune() calls and engine runs",
+        ref="DESIGN.md section 5, C12",
+    ),
     "C16": dict(
         text="Design theorem by exhaustive TLC (every reachable EpochManager state x every candidate config: "
              "code-shaped acceptance rule <=> validity predicate written from the property; every stan_epochs "
